@@ -122,12 +122,32 @@ Record variant := {
   vr_sel_z : bool;        (* SELECTOR_REGEX *)
   vr_hash_z : bool;       (* the value regexes of stix2/hashes.py *)
   vr_interop_z : bool;    (* ID_REGEX_interoperability *)
-  vr_uuid_canon : bool    (* _check_uuid insists on the 8-4-4-4-12 text (true) or takes whatever uuid.UUID() takes (false) *)
+  vr_uuid_canon : bool;   (* _check_uuid insists on the 8-4-4-4-12 text (true) or takes whatever uuid.UUID() takes (false) *)
+  vr_year_pad : bool;     (* format_datetime writes years below 1000 with four digits (true; C15) *)
+  vr_sel_upper : bool;    (* SELECTOR_REGEX admits A-Z in the segments after the first (true; C08) *)
+  vr_ref_flip_unreg : bool;     (* ReferenceProperty inverts a generic whitelist under allow_custom only for
+                                   unregistered types (true) or for every type (false; C04) *)
+  vr_parse_guard_custom : bool; (* dict_to_stix2 / parse_observable refuse an object that came out customised
+                                   when allow_custom=False (true) or return it (false; C04) *)
+  vr_ext_scan_guard : bool;     (* _STIXBase.__init__ skips non-mapping `extensions` / entries in its scan and
+                                   tolerates a registered class without _toplevel_properties (true; C17) *)
+  vr_detect_default : bool;     (* detect_spec_version: a bundle without (or with empty) `objects` is 2.1 (true)
+                                   or raises KeyError / ValueError (false; C17) *)
+  vr_d2s_ext_guard : bool       (* dict_to_stix2's extension scan skips non-dict values (true) or crashes (false; C17) *)
 }.
 Definition variant_pinned : variant :=
-  {| vr_hex_z := false; vr_key_z := false; vr_sel_z := false; vr_hash_z := false; vr_interop_z := false; vr_uuid_canon := false |}.
+  {| vr_hex_z := false; vr_key_z := false; vr_sel_z := false; vr_hash_z := false; vr_interop_z := false; vr_uuid_canon := false; vr_year_pad := false;
+     vr_sel_upper := false; vr_ref_flip_unreg := false; vr_parse_guard_custom := false; vr_ext_scan_guard := false;
+     vr_detect_default := false; vr_d2s_ext_guard := false |}.
 Definition variant_repaired : variant :=
-  {| vr_hex_z := true; vr_key_z := true; vr_sel_z := true; vr_hash_z := true; vr_interop_z := true; vr_uuid_canon := true |}.
+  {| vr_hex_z := true; vr_key_z := true; vr_sel_z := true; vr_hash_z := true; vr_interop_z := true; vr_uuid_canon := true; vr_year_pad := true;
+     vr_sel_upper := true; vr_ref_flip_unreg := true; vr_parse_guard_custom := true; vr_ext_scan_guard := true;
+     vr_detect_default := true; vr_d2s_ext_guard := true |}.
+
+(* What the constructor draws from outside: its clock reading (one per constructor call: microseconds
+   since 0001-01-01T00:00:00Z), the text of uuid.uuid4() and the text of the uuid5 of a 2.1 observable's
+   contributing properties (abstract here; C06 is about its argument).                              *)
+Record env := { e_now : Z; e_uuid4 : ustring; e_uuid5 : ustring }.
 
 Fixpoint find_class (cs : list cls) (id : ustring) : option cls :=
   match cs with
